@@ -26,14 +26,15 @@ LS == [s1 |-> [nv |-> 1, l |-> <<>>, c |-> "scalar"],
        v3 |-> [nv |-> 3, l |-> <<"m_x", "b", "c">>, c |-> "under"],
        f3 |-> [nv |-> 3, l |-> <<"ft_x", "ft_y", "ft_z">>, c |-> "under"],
        d3 |-> [nv |-> 3, l |-> <<"a-b", "c", "d">>, c |-> "nonword"],
+       r3 |-> [nv |-> 3, l |-> <<"m_mean", "m_y", "m_z">>, c |-> "reserved"],     \* the part after `_` is a method name of Field
        m4 |-> [nv |-> 4, l |-> <<"v0", "v1", "v2", "v3">>, c |-> "multi"],
        m6 |-> [nv |-> 6, l |-> <<"xx", "yy", "zz", "xy", "xz", "yz">>, c |-> "multi"]]
 Mk(n, g, ls, unit, munit, sk, off, K) ==
    [lo |-> g[1], c |-> g[2], n |-> n, nv |-> LS[ls].nv, labels |-> LS[ls].l, lclass |-> LS[ls].c,
     unit |-> unit, munit |-> munit, vals |-> MkVals(n, LS[ls].nv, off, K), subs |-> SubsOf(sk, g, n)]
 
-UM_quick == {<<None, "m">>, <<"A/m", "m">>, <<"T", "nm">>}
-UM_all   == {<<u, m>> : u \in {None, "A/m", "T", "J/m^3"}, m \in {"m", "nm"}}
+UM_quick == {<<None, "m">>, <<"A/m", "m">>, <<"T", "nm">>, <<"J m-3", "m">>}      \* the last unit contains a blank
+UM_all   == {<<u, m>> : u \in {None, "A/m", "T", "J/m^3", "J m-3"}, m \in {"m", "nm"}}
 (* A: data order and geometry;  B: labels and units;  C: subregions *)
 FamA(NS, GS, K)  == {Mk(n, g, ls, "A/m", "m", 0, 0, K) : n \in NS, g \in GS, ls \in {"s1", "p3"}}
 FamB(n, UM, K)   == {Mk(n, G1, ls, um[1], um[2], 0, 1, K) : ls \in DOMAIN LS, um \in UM}
